@@ -390,7 +390,7 @@ def judge_table_result(world, op, out, po, what):
     return vs
 
 
-def oracle_for(world, op, variant_tables=None):
+def oracle_for(world, op, strict=False):
     """PairOracle of a join / filter_tables op (None if the call is not
     judged by the model, e.g. filter with a tokenizer in the wrong mode)."""
     lrows, rrows = world.rows[op['l']], world.rows[op['r']]
@@ -401,7 +401,8 @@ def oracle_for(world, op, variant_tables=None):
             world.tokspec[tokname], op['measure'], op['threshold'],
             op.get('comp_op', '<=' if op['measure'] == 'EDIT_DISTANCE'
                    else '>='),
-            op.get('allow_empty', True), op.get('allow_missing', False))
+            op.get('allow_empty', True), op.get('allow_missing', False),
+            strict=strict)
     fspec = world.case['filters'][op['filter']]
     return filter_oracle_for(world, fspec, lrows, rrows, op['l_key'],
                              op['r_key'], op['l_attr'], op['r_attr'])
@@ -1066,7 +1067,10 @@ def _compare(world, op, base_res, other_res, exact, po, what, prop, comp):
                         'result rows differ: %d vs %d rows; only in first %r; '
                         'only in second %r' % (sum(a.values()), sum(b.values()),
                                                only_a, only_b)))
-    elif po is not None:
+    elif po is not None and not comp.startswith('filter_tables:SuffixFilter'):
+        # (SuffixFilter: known finding K1 loses qualifying pairs depending on
+        # the chunking; its losses are judged on the main call, with the K1
+        # predicate, not across variants)
         got = set((r[1], r[2]) for r in other_res.rows)
         lost = [k for k in po.must() if k not in got]
         if lost:
@@ -1164,8 +1168,8 @@ def variant_case(case, op, var):
                 for cname, dt, vals in extra:
                     s['columns'] = s['columns'] + [cname]
                     s['dtypes'][cname] = dt
-                    vals = _fit_list(vals, len(s['rows']),
-                                     lambda i: vals[0] if vals else None)
+                    dflt = vals[0] if vals else (0 if dt == 'int64' else None)
+                    vals = _fit_list(vals, len(s['rows']), lambda i: dflt)
                     s['rows'] = [r + [v] for r, v in zip(s['rows'], vals)]
             if order:
                 order = [c for c in order if c in s['columns']]
